@@ -45,6 +45,12 @@ var c14Corpus = []string{
 	`a:b AND c:d`, `a:b OR c:d`, `NOT a:b`, `+a:b`, `-a:b`, `a:b c:d e:f`, `a:b~`, `a:b~2`, `a:b^`, `a:b^2.5`,
 	`x y`, `x AND "y z"`, `x*`, `(a:b OR c:[1 TO 2]) AND NOT d:(p OR q) -e:r* f:/s.t/`,
 	`a:it\'s`, `"a" : b`, `a:b AND`, `(`, `a:[1 TO`, `!`, ``,
+	// pairs of different queries that a cache keyed on a normalised form (printed tree, collapsed
+	// whitespace, case-folded text, column + shape) would confuse
+	`a:1 OR b:2 AND c:3`, `(a:1 OR b:2) AND c:3`, `n:7`, `n:"7"`, `t:"x  y"`, `t:"x y"`, `k:V`, `k:v`,
+	`p:{1 TO 5}`, `p:{foo TO bar}`, `p:[1 TO 5]`, `r:(u OR v)`, `r:u OR r:v`,
+	// repeated values inside one list
+	`a:(x OR y OR x OR z)`, `a:(1 OR 2 OR 2 OR 3 OR 4)`,
 }
 
 // collision scenarios for the scheduler: queries that drive many shared tables at once
@@ -294,6 +300,15 @@ func init() {
 					us = append(us, core.Unit{Name: fmt.Sprintf("explore|%d|%s|%d|%d|%d|%s", bound, gran, qi, sh, shards, strings.Join(ops, "|")), Weight: w})
 				}
 			}
+			// threads on different (long) inputs: shared state keyed by the input must not leak between them.
+			// op@k = operation on collision query k
+			textOps := []string{"Parse", "ParseDF", "ToPostgres", "ToParam"}
+			for _, a := range textOps {
+				for _, b := range textOps {
+					us = append(us, core.Unit{Name: fmt.Sprintf("explore|1|full|0|0|1|%s@0|%s@1", a, b), Weight: 3})
+					us = append(us, core.Unit{Name: fmt.Sprintf("explore|1|full|0|0|1|%s@1|%s@0|%s@0", a, b, a), Weight: 4})
+				}
+			}
 			trip := [][]string{{"ToPostgres", "ToParam", "Parse"}, {"Render", "RenderParam", "String"}, {"Marshal", "Unmarshal", "Validate"}}
 			if tier != "thorough" {
 				pairs(func(a, b string) {
@@ -501,23 +516,33 @@ func diffLines(a, b string) string {
 // ---------------------------------------------------------------------------------------------
 // scheduler scenarios
 
+// opSpec splits "Op@k" (operation on collision query k) from a plain "Op" (on the scenario's query).
+func opSpec(spec, query string) (string, string) {
+	if i := strings.IndexByte(spec, '@'); i >= 0 {
+		k, _ := strconv.Atoi(spec[i+1:])
+		return spec[:i], c14SchedQueries[k]
+	}
+	return spec, query
+}
+
 func c14SeqRefs(ops []string, query string) []string {
-	sh := sharedExpr(query)
 	refs := make([]string, len(ops))
-	for i, op := range ops {
-		refs[i] = runOp(op, query, sh)
+	for i, spec := range ops {
+		op, q := opSpec(spec, query)
+		refs[i] = runOp(op, q, sharedExpr(q))
 	}
 	return refs
 }
 
 // c14Bodies: fresh thread bodies writing into a fresh result vector.
 func c14Bodies(ops []string, query string) ([]func(), *[]string) {
-	sh := sharedExpr(query)
 	results := make([]string, len(ops))
 	bodies := make([]func(), len(ops))
-	for i, op := range ops {
-		i, op := i, op
-		bodies[i] = func() { results[i] = runOp(op, query, sh) }
+	for i, spec := range ops {
+		i := i
+		op, q := opSpec(spec, query)
+		sh := sharedExpr(q)
+		bodies[i] = func() { results[i] = runOp(op, q, sh) }
 	}
 	return bodies, &results
 }
@@ -563,19 +588,27 @@ func c14Judge(ops []string, query string, r *schedRun, results, seqRef []string,
 	}
 	for i := range ops {
 		if r.panics[i] != nil {
-			return &core.Obs{Clause: "concurrent", Class: "panic " + ops[i], Observed: fmt.Sprint(r.panics[i]), Expected: "no panic"}
+			return &core.Obs{Clause: "concurrent", Class: "panic " + strings.SplitN(ops[i], "@", 2)[0], Observed: fmt.Sprint(r.panics[i]), Expected: "no panic"}
 		}
 		if results[i] != seqRef[i] {
-			return &core.Obs{Clause: "concurrent", Class: "result-differs " + ops[i],
+			return &core.Obs{Clause: "concurrent", Class: "result-differs " + strings.SplitN(ops[i], "@", 2)[0],
 				Observed: fmt.Sprintf("thread %d (%s) returned %s", i, ops[i], trunc(results[i], 400)),
 				Expected: "its sequential result: " + trunc(seqRef[i], 400)}
 		}
 	}
-	if sh := sharedExpr(query); sh != nil {
-		vsched.Hook = nil
-		fresh, err := lucene.Parse(query)
-		if err == nil && !reflect.DeepEqual(fresh, sh) {
-			return &core.Obs{Clause: "concurrent", Class: "shared-expression-modified", Observed: gostr(sh), Expected: gostr(fresh)}
+	seenQ := map[string]bool{}
+	for _, spec := range ops {
+		_, q := opSpec(spec, query)
+		if seenQ[q] {
+			continue
+		}
+		seenQ[q] = true
+		if sh := sharedExpr(q); sh != nil {
+			vsched.Hook = nil
+			fresh, err := lucene.Parse(q)
+			if err == nil && !reflect.DeepEqual(fresh, sh) {
+				return &core.Obs{Clause: "concurrent", Class: "shared-expression-modified", Observed: gostr(sh), Expected: gostr(fresh)}
+			}
 		}
 	}
 	_ = full
